@@ -175,8 +175,22 @@ def install(ex, env):
 UCI_LOOP = 'uci::Uci::uci_loop'
 
 
-def uci_value(search_state='none'):
-    """Uci { board, search_running, join_handle }"""
+def uci_value(search_state='none', run=None, ex=None, st=None):
+    """a Uci session value.  With run/ex/st given it is built by the real Uci::new() (so that added fields get their real
+    initial values) and the named fields are then set; otherwise the positional layout { board, search_running, join_handle }
+    is used, which is only right while the struct has exactly these fields (guarded by layout_mismatch in the callers)."""
+    if run is not None:
+        fields = run.prog.structs.get('uci::Uci')
+        new = [n for n, it in run.prog.items.items() if it.kind == 'fn' and n.startswith('uci::<impl') and n.endswith('::new')]
+        if fields and new and all(f in fields for f in ('board', 'search_running', 'join_handle')):
+            r = ex.call(new[0], [], [], 'uci::Uci', st, 'harness')
+            v = list(r[0])
+            v[fields.index('board')] = Opaque('Board', 'session')
+            if search_state != 'none':
+                v[fields.index('search_running')] = some(Opaque('Arc<AtomicBool>'))
+                v[fields.index('join_handle')] = some(Opaque('JoinHandle'))
+            return tuple(v)
+        raise Unsupported('struct uci::Uci has no board / search_running / join_handle fields any more')
     if search_state == 'none':
         return (Opaque('Board', 'session'), NONE, NONE)
     return (Opaque('Board', 'session'), some(Opaque('Arc<AtomicBool>')), some(Opaque('JoinHandle')))
@@ -187,7 +201,7 @@ def run_iteration(run, tokens, eof, search_state='none'):
     env = Env(ex, tokens, eof)
     install(ex, env)
     st = State()
-    up = ex.alloc(st, uci_value(search_state))
+    up = ex.alloc(st, uci_value(search_state, run, ex, st))
     rp = ex.alloc(st, Opaque('BufRead'))
     r = ex.call(UCI_LOOP, [up, rp], ['&mut uci::Uci', '&mut impl BufRead'], '()', st, 'harness')
     run.absorb(ex)
